@@ -9,6 +9,7 @@ import (
 	"crypto/sha512"
 	"fmt"
 	"io"
+	"sync"
 	"testing/iotest"
 
 	"github.com/wollac/iota-crypto-demo/pkg/ed25519"
@@ -23,7 +24,7 @@ func init() {
 		Builds:   []string{"default", "386"}, // the 386 build runs 1/4 of the random classes on a 32-bit target
 		Scale386: 4,
 		Parallel: 4, // cases are judged on 4 goroutines per shard: the library functions are stateless, shared state inside them shows up as wrong verdicts
-		Rule: "(seed, message) pairs: seeds random / all-zero / all-0xff / single-bit; messages of every length 0..2400 (both SHA-512 padding regimes of prefix||M and R||A||M, and beyond any plausible fixed-size buffer), lengths around 2^10..2^17, and random 1..64 KiB. For each pair the monitor compares NewKeyFromSeed, Public, Seed, Sign (twice), PrivateKey.Sign(Hash(0)), GenerateKey(reader) byte for byte with crypto/ed25519 and with the big-integer RFC 8032 signer, checks Verify accepts, pre-hashed options are refused and short readers fail. " +
+		Rule: "(seed, message) pairs: seeds random / all-zero / all-0xff / single-bit; messages of every length 0..2400 (both SHA-512 padding regimes of prefix||M and R||A||M, and beyond any plausible fixed-size buffer), lengths around 2^10..2^17, and random 1..64 KiB. For each pair the monitor compares NewKeyFromSeed, Public, Seed, Sign (twice), PrivateKey.Sign(Hash(0)), GenerateKey(reader) byte for byte with crypto/ed25519 and with the big-integer RFC 8032 signer, checks Verify accepts, pre-hashed options are refused and short readers fail. The seed and message are passed as windows into larger buffers (pattern behind the length must survive; the buffers are wiped afterwards and every result handed out must stay what it was), and unrelated Verify calls that are rejected at every stage (undecodable R, undecodable key, S>=L, wrong length) or accepted are interleaved on the same goroutine between the calls. " +
 			"Non-trivial: distinct (seed, len(msg)) pairs (all cases).",
 		Assumptions: []string{"crypto/ed25519 and SHA-512 of the Go standard library", "the RFC 8032 model in harness/oracle/ed (self-tested against RFC 8032 vectors)"},
 		SelfTest:    ed.SelfTest,
@@ -42,7 +43,7 @@ func init() {
 			}
 			return m
 		},
-		Required: []string{"sign ok", "model signer compared", "short reader refused", "prehash refused"},
+		Required: []string{"unrelated Verify calls interleaved (rejected at every stage, and accepted)", "sign ok", "model signer compared", "short reader refused", "prehash refused"},
 	})
 }
 
@@ -81,16 +82,51 @@ func judge(class string, key []byte, o *fw.Obs) {
 	var seedBack []byte
 	var ok bool
 	var err3 error
+	// The caller's seed and message are windows into larger buffers (spare capacity behind the length,
+	// filled with a pattern): a callee that appends to its argument writes into memory it does not own.
+	// In between the calls the same goroutine verifies unrelated signatures that are rejected at every stage
+	// (undecodable R, undecodable key, S >= L, wrong length) or accepted: what the package computes for
+	// (seed, msg) must not depend on that history.
+	seedIn, msgIn := fw.Spare(seed, 96), fw.Spare(msg, 200)
+	dist := disturbances(seed, stdPriv, msg, stdSig)
+	dOK := true
+	disturb := func(i int) {
+		d := dist[i%len(dist)]
+		if got := ed25519.Verify(ed25519.PublicKey(d.pub), d.msg, d.sig); got != d.want {
+			dOK = false
+		}
+	}
 	if !o.Try("NewKeyFromSeed/Sign/Verify", func() {
-		priv = ed25519.NewKeyFromSeed(seed)
-		sig1 = ed25519.Sign(priv, msg)
-		sig2 = ed25519.Sign(priv, msg)
-		sig3, err3 = priv.Sign(nil, msg, crypto.Hash(0))
+		disturb(0)
+		priv = ed25519.NewKeyFromSeed(seedIn)
+		disturb(1)
+		sig1 = ed25519.Sign(priv, msgIn)
+		disturb(2)
+		sig2 = ed25519.Sign(priv, msgIn)
+		disturb(3)
+		sig3, err3 = priv.Sign(nil, msgIn, crypto.Hash(0))
 		pubI = priv.Public()
 		seedBack = priv.Seed()
-		ok = ed25519.Verify(ed25519.PublicKey(priv[32:]), msg, sig1)
+		disturb(4)
+		ok = ed25519.Verify(ed25519.PublicKey(priv[32:]), msgIn, sig1)
 	}) {
 		return
+	}
+	o.Count("unrelated Verify calls interleaved (rejected at every stage, and accepted)")
+	if !dOK {
+		o.Fail("verify", "an interleaved Verify call on unrelated material (undecodable R / undecodable key / S >= L / wrong length / genuine signature) gave the wrong verdict")
+		return
+	}
+	if !fw.SpareIntact(seedIn) || !fw.SpareIntact(msgIn) {
+		o.Fail("mutation", "NewKeyFromSeed/Sign wrote into the caller's buffer behind the end of the seed or message slice it was given (spare capacity of the argument): seed buffer %x", seedIn[:cap(seedIn)])
+		return
+	}
+	// the caller wipes its buffers after use: nothing handed out before may change
+	for i, b := 0, seedIn[:cap(seedIn)]; i < len(b); i++ {
+		b[i] = 0
+	}
+	for i, b := 0, msgIn[:cap(msgIn)]; i < len(b); i++ {
+		b[i] = 0
 	}
 	kept.Keep("signature returned by Sign", sig1)
 	kept.Keep("private key returned by NewKeyFromSeed", priv)
@@ -197,6 +233,63 @@ func judge(class string, key []byte, o *fw.Obs) {
 		}
 	}
 	o.Count("sign ok")
+}
+
+type distCall struct {
+	pub, msg, sig []byte
+	want          bool
+}
+
+// undecodable returns 32-byte strings that are not point encodings (decided by the model).
+var (
+	undecodableOnce sync.Once
+	undecodableTab  [][]byte
+)
+
+func undecodable() [][]byte {
+	undecodableOnce.Do(func() {
+		rng := fw.SubRng(7, "c07-undecodable")
+		for len(undecodableTab) < 32 {
+			b := make([]byte, 32)
+			rng.Read(b)
+			if _, ok := ed.Decode(b, false); !ok {
+				undecodableTab = append(undecodableTab, b)
+			}
+		}
+	})
+	return undecodableTab
+}
+
+// disturbances builds Verify calls on material unrelated to (or derived from) the case, with verdicts
+// known by construction.
+func disturbances(seed []byte, stdPriv stded.PrivateKey, msg, stdSig []byte) []distCall {
+	und := undecodable()
+	sel := int(seed[3]) + len(msg)
+	otherSeed := append([]byte(nil), seed...)
+	otherSeed[5] ^= 0x80
+	oPriv := stded.NewKeyFromSeed(otherSeed)
+	oMsg := append([]byte("unrelated "), msg...)
+	if len(oMsg) > 300 {
+		oMsg = oMsg[:300]
+	}
+	oSig := stded.Sign(oPriv, oMsg)
+	oPub := []byte(oPriv[32:])
+	badR := append(append([]byte(nil), und[sel%len(und)]...), oSig[32:]...)
+	sPlusL := ed.LE(oSig[32:])
+	sPlusL.Add(sPlusL, ed.L) // S + L < 2^253: passes any top-bits pre-check, is not canonical
+	highS := append(append([]byte(nil), oSig[:32]...), ed.ToLE(sPlusL, 32)...)
+	all := []distCall{
+		{oPub, oMsg, badR, false},
+		{und[(sel+1)%len(und)], oMsg, oSig, false},
+		{oPub, oMsg, highS, false},
+		{oPub, oMsg, oSig[:63], false},
+		{oPub, oMsg, oSig, true},
+		{oPub, msg, stdSig, false},
+		{[]byte(stdPriv[32:]), msg, append(append([]byte(nil), und[(sel+2)%len(und)]...), stdSig[32:]...), false},
+	}
+	// rotate so that every kind is seen at every position over the cases
+	r := sel % len(all)
+	return append(all[r:], all[:r]...)
 }
 
 func gen(g *fw.Gen) {
